@@ -31,11 +31,16 @@ def eos_lattice(tier: str, families=("bag", "template", "twostep")) -> list[dict
                             continue  # quick: thin out the interior of the box, keep its faces
                         for s in units if (al == 0.1 and psi == 0.95 and cb2 == cs[1]) else units[:1]:
                             out.append(dict(kind="template", args=[al, psi, cb2, cs2], Tn=1.0, s=s))
+        # points just below the runaway threshold of the LTE velocity with cb^2 < cs^2: the LTE root is a fast hybrid whose
+        # shock front is close to the wall (v+ vw between cb^2 and cs^2) - a region the regular box does not reach
+        for (al, psi, cb2, cs2) in ((0.21, 0.8, 0.30, 1 / 3), (0.19, 0.8, 0.30, 1 / 3), (0.2, 0.9, 0.25, 0.31)):
+            out.append(dict(kind="template", args=[al, psi, cb2, cs2], Tn=1.0, s=1.0))
     if "twostep" in families:
         for (ab, a_s, mu2) in ((0.2, 0.1, 0.4), (0.3, 0.1, 0.5), (0.15, 0.12, 0.3)):
             for tn in (0.5, 0.7, 0.9):
                 for s in units if (ab == 0.2 and tn == 0.7) else units[:1]:
                     out.append(dict(kind="twostep", args=[ab, a_s, mu2], Tn=tn, s=s))
+        out.append(dict(kind="twostep", args=[0.4, 0.1, 0.6], Tn=0.8, s=1.0))  # fast-hybrid LTE root (0.709 < vJ)
     for c in out:
         c["id"] = f"{c['kind']}({','.join(f'{a:.4g}' for a in c['args'])}),Tn={c['Tn']:g},units={c['s']:g}"
     return out
